@@ -12,6 +12,7 @@ import (
 	"path/filepath"
 	"sort"
 	"strings"
+	gosync "sync"
 	"testing"
 	"testing/synctest"
 	"time"
@@ -144,6 +145,7 @@ var bubbleLeakOK bool
 // generic sched-scenario runner
 
 type schedExec struct {
+	hooks  map[string]func() // called (in the hooked goroutine) when the named point is reached
 	j      *vlib.Job
 	s      *sched.Sched
 	db     *DB
@@ -194,6 +196,9 @@ func (sc *schedScenario) runOne(t *testing.T, j *vlib.Job, prefix []int) *sched.
 			if name == "commit.ts" {
 				// runs under writeChLock right after the conflict check: event order = check order
 				s.Log("check tid=%d", s.Tid())
+			}
+			if h := x.hooks[name]; h != nil {
+				h()
 			}
 			s.Point(name)
 		}
@@ -281,6 +286,7 @@ func (sc *schedScenario) explore(t *testing.T, j *vlib.Job, r *vlib.Result) {
 		ShardDepth: j.Int("shard_depth", 2),
 		Deadline:   j.Deadline(start),
 		StopOnViol: true,
+		IsKnown:    j.IsKnown,
 		Run: func(prefix []int) *sched.Exec {
 			x := sc.runOne(t, j, prefix)
 			if os.Getenv("VERIF_DEBUG") != "" {
@@ -361,6 +367,31 @@ func registerSched(sc *schedScenario) {
 		}
 		j.Shard, j.NShard = shard, nshard
 	})
+}
+
+// flushBlocking rotates the active memtable (as ensureRoomForWrite does) from a scheduled harness
+// thread and blocks (on a channel, not by polling) until the flusher has added the table to L0.
+func (x *schedExec) flushBlocking() {
+	done := make(chan struct{})
+	var once gosync.Once
+	if x.hooks == nil {
+		x.hooks = map[string]func(){}
+	}
+	x.hooks["flush.added"] = func() { once.Do(func() { close(done) }) }
+	db := x.db
+	db.lock.Lock()
+	if db.mt == nil || db.mt.sl.Empty() {
+		db.lock.Unlock()
+		return
+	}
+	db.flushChan <- db.mt
+	db.imm = append(db.imm, db.mt)
+	var err error
+	if db.mt, err = db.newMemTable(); err != nil {
+		panic(err)
+	}
+	db.lock.Unlock()
+	<-done
 }
 
 // ---------------------------------------------------------------------------------------
